@@ -183,6 +183,38 @@ def run_direct(ctx, legacy):
                 ctx.out.violation('property', 'direct-marker', case, expect={'standard_names': hidden}, got=k2)
 
 
+# reverse maps the library decodes with (code -> name), each with the forward table it must mirror; the Lean theorems
+# `…_consistent` state the same relation over the regenerated tables — this is the search for the concrete failing code
+REVERSE_OF = [('DW_FORM_raw2name', 'ENUM_DW_FORM'), ('DW_OP_opcode2name', 'DW_OP_name2opcode')]
+
+
+def run_reverse(ctx):
+    reg, _ = load_tsv()
+    tabs = {tid: items for tid, items, _ in live_tables()}
+    for rid, fid in REVERSE_OF:
+        rev, fwd = tabs.get(rid), tabs.get(fid)
+        if rev is None or fwd is None:
+            ctx.out.violation('correspondence', 'direct-reverse', {'reverse': rid, 'forward': fid}, got='table missing')
+            continue
+        fset = set(fwd)
+        by_code = {}
+        for n, v in rev:
+            by_code.setdefault(v, []).append(n)
+        # (a) every reported pair is a pair of the forward table
+        for n, v in rev:
+            case = {'reverse': rid, 'forward': fid, 'code': v, 'reported': n}
+            ctx.out.case(case)
+            ctx.out.count('direct:reverse')
+            if (n, v) not in fset:
+                ctx.out.violation('property', 'direct-reverse', case, expect={'forward_names': [a for a, b in fwd if b == v]}, got=n)
+        # (b) every code of the forward table is reported under some name (a code found in a file must be named)
+        for n, v in fwd:
+            if v not in by_code:
+                case = {'reverse': rid, 'forward': fid, 'code': v, 'reported': None}
+                ctx.out.case(case, nontrivial=n in reg)
+                ctx.out.violation('property', 'direct-reverse', case, expect={'forward_names': [a for a, b in fwd if b == v]}, got=None)
+
+
 # ----------------------------------------------------------------------------- parse
 MACHINES = [('x64', 62), ('ARM', 40), ('AArch64', 183), ('MIPS', 8), ('RISC-V', 243), ('x86', 3), ('PPC64', 21)]
 
@@ -519,6 +551,7 @@ def run(ctx):
     gen = run_ties(ctx)
     sc = [[n, v] for n, v in _legacy(ctx)]
     run_direct(ctx, sc)
+    run_reverse(ctx)
     run_parse(ctx, gen)
 
 
@@ -558,6 +591,13 @@ def replay(ctx, payload):
         k2 = rev.get(case['code'])
         hidden = marker_shadow(items, case['code'], k2) if k2 is not None else []
         res.update(impl=k2, expect={'standard_names': hidden}, fails=bool(hidden))
+    elif stream == 'direct-reverse':
+        tabs = {t: i for t, i, _ in live_tables()}
+        rev, fwd = tabs.get(case['reverse'], []), tabs.get(case['forward'], [])
+        names = [n for n, x in rev if x == case['code']]
+        fnames = [n for n, x in fwd if x == case['code']]
+        res.update(impl=names, expect={'forward_names': fnames},
+                   fails=(bool(fnames) and not names) or any(n not in fnames for n in names))
     elif stream == 'parse':
         t = ctx.driver.ask({'p': 'C17', 'k': 'tables'})
         gen = {x['id']: [tuple(i) for i in x['items']] for x in t['tables']}
